@@ -312,6 +312,16 @@ def map_descriptor(mod, fn, calias='_C'):
             for c in ast.iter_child_nodes(n):
                 parent[id(c)] = n
         p = parent.get(id(m))
+        # `results = map(...)` followed by one use of `results`: the consumer is where it is used
+        hops = 0
+        while isinstance(p, ast.Assign) and len(p.targets) == 1 and isinstance(p.targets[0], ast.Name) and hops < 3:
+            t_ = p.targets[0].id
+            uses = [n for n in walk(fn) if isinstance(n, ast.Name) and n.id == t_ and isinstance(n.ctx, ast.Load)]
+            defs = [n for n in walk(fn) if isinstance(n, ast.Name) and n.id == t_ and isinstance(n.ctx, ast.Store)]
+            if len(uses) != 1 or len(defs) != 1:
+                break
+            p = parent.get(id(uses[0]))
+            hops += 1
         if isinstance(p, ast.Call):
             cn = call_name(p)
             if cn == '%s.unflatten' % spec_var:
@@ -326,6 +336,12 @@ def map_descriptor(mod, fn, calias='_C'):
     rets = [s for s in walk(fn) if isinstance(s, ast.Return)]
     if len(rets) == 1 and rets[0].value is not None:
         v = rets[0].value
+        # `out = treespec.unflatten(...)` followed by `return out`
+        if isinstance(v, ast.Name) and not is_name(v, tree_param(fn)):
+            asg = [s_ for s_ in walk(fn) if isinstance(s_, ast.Assign) and len(s_.targets) == 1 and
+                   is_name(s_.targets[0], v.id)]
+            if len(asg) == 1:
+                v = asg[0].value
         if is_name(v, tree_param(fn)):
             d['returns'] = 'tree'
         elif isinstance(v, ast.Call) and call_name(v) == '%s.unflatten' % spec_var:
@@ -701,6 +717,11 @@ def f6(ctx):
         ctx.require(roles is not None, '%s: outer / inner treespec not recognised' % name)
         env = {'outer': roles['outer'], 'inner': roles['inner']}
         ok = False
+        # (explaining variables are inlined by the front end: one expression)
+        last = fn.body[-1]
+        if isinstance(last, ast.Return) and last.value is not None and \
+                pmatch(last.value, '?inner.unflatten(map(?outer.unflatten, zip(*?g)))', env) is not None:
+            ok = True
         for s1 in fn.body:
             e1 = pmatch(s1, '?tr = zip(*?g)', env)
             if e1 is None:
